@@ -114,6 +114,8 @@ inductive Q where
   | update (subj : Q) (filter shape : QList)
   /-- `delete subj filter … order by … offset/limit …` -/
   | delete (subj : Q) (filter order offlim : QList)
+  /-- free-object shape `{ a := e₁, b := e₂, … }` (the one SELECT shape in which DML is accepted) -/
+  | free (shape : QList)
 inductive QList where
   | nil
   | cons (q : Q) (qs : QList)
@@ -173,15 +175,33 @@ structure FnDecl where
 
 abbrev FnEnv := List FnDecl
 
+/-- what `ctx.defining_view` / `ctx.partial_path_prefix` say about the shape we are in -/
+inductive ShapeK where
+  /-- not inside a shape computed (or inside an INSERT / UPDATE shape, where DML is fine) -/
+  | none
+  /-- inside a computed of a SELECT shape on an object: `defining_view` is a Select view -/
+  | sel
+  /-- inside a computed of a free-object shape; `ok` = the free object was written where the
+      enclosing context was `Exposure.EXPOSED` (and `partial_path_prefix` is still that object) -/
+  | free (ok : Bool)
+  deriving DecidableEq, Repr
+
 /-- the part of the compiler context that decides whether DML is accepted -/
 structure Cx where
   /-- `ctx.disallow_dml`: inside a FILTER or ORDER BY clause -/
   disallow : Bool
-  /-- `ctx.defining_view` is the view of a SELECT shape: inside a shape computed of a SELECT -/
-  selShape : Bool
+  /-- `ctx.defining_view` / `ctx.partial_path_prefix` -/
+  shape : ShapeK
+  /-- `ctx.expr_exposed == EXPOSED` (false in WITH bindings, FOR iterators, UPDATE/DELETE subjects,
+      OFFSET/LIMIT, subjects of shaped SELECTs; true again in INSERT/UPDATE shape elements) -/
+  exposed : Bool
   deriving DecidableEq, Repr
 
-def Cx.top : Cx := ⟨false, false⟩
+def Cx.top : Cx := ⟨false, .none, true⟩
+
+/-- context of an OFFSET/LIMIT clause: unexposed, `partial_path_prefix` cleared -/
+def Cx.offlim (cx : Cx) : Cx :=
+  { cx with exposed := false, shape := match cx.shape with | .free _ => .free false | k => k }
 
 def appendR : Except Reject (List Rec) → Except Reject (List Rec) → Except Reject (List Rec)
   | .error e, _ => .error e
@@ -191,8 +211,23 @@ def appendR : Except Reject (List Rec) → Except Reject (List Rec) → Except R
 /-- common entry check of `compile_InsertQuery/UpdateQuery/DeleteQuery` + `init_stmt` -/
 def dmlGuard (cx : Cx) : Except Reject Unit :=
   if cx.disallow then .error .clause
-  else if cx.selShape then .error .shape
-  else .ok ()
+  else match cx.shape with
+    | .sel => .error .shape
+    | .free false => .error .shape
+    | _ => .ok ()
+
+/-- what `compile_FunctionCall` does for a resolved callee `d` (numbered `f`) in context `cx`:
+a Modifying callee is inlined (its body is compiled in the current context, so a DML statement in
+it hits `dmlGuard`; inside a free-object shape the inlined statement is never acceptable), then the
+call is recorded and the shape check of func.py is made -/
+def callRec (cx : Cx) (f : Nat) (d : FnDecl) : Except Reject (List Rec) :=
+  if d.modifying then
+    if d.dmlStmt && cx.disallow then .error .clause
+    else match cx.shape with
+      | .sel => .error .shape
+      | .free ok => if d.dmlStmt || !ok then .error .shape else .ok [.call f d.dmlStmt]
+      | .none => .ok [.call f d.dmlStmt]
+  else .ok []
 
 mutual
 /-- what the EdgeQL compiler appends to `ctx.env.dml_exprs` while compiling `q` in context `cx`
@@ -209,43 +244,41 @@ def record (fe : FnEnv) (cx : Cx) : Q → Except Reject (List Rec)
     appendR (recordL fe cx args)
       (match fe[f]? with
        | none => .error .unknownFn
-       | some d =>
-         if d.modifying then
-           if d.dmlStmt && cx.disallow then .error .clause
-           else if cx.selShape then .error .shape
-           else .ok [.call f d.dmlStmt]
-         else .ok [])
+       | some d => callRec cx f d)
   | .ifElse c t e => appendR (record fe cx c) (appendR (record fe cx t) (record fe cx e))
   | .select subj shape filter order offlim =>
-    appendR (record fe cx subj)
-      (appendR (recordL fe { cx with selShape := true } shape)
+    appendR (record fe { cx with exposed := cx.exposed && shape.isNil } subj)
+      (appendR (recordL fe { cx with shape := .sel } shape)
         (appendR (recordL fe { cx with disallow := true } filter)
-          (appendR (recordL fe { cx with disallow := true } order) (recordL fe cx offlim))))
-  | .withB _ b body => appendR (record fe cx b) (record fe cx body)
-  | .forQ _ iter body => appendR (record fe cx iter) (record fe cx body)
+          (appendR (recordL fe { cx with disallow := true } order) (recordL fe cx.offlim offlim))))
+  | .withB _ b body => appendR (record fe { cx with exposed := false } b) (record fe cx body)
+  | .forQ _ iter body => appendR (record fe { cx with exposed := false } iter) (record fe cx body)
   | .insert _ shape onC els =>
     match dmlGuard cx with
     | .error e => .error e
     | .ok () =>
       appendR (.ok [.stmt .insert])
-        (appendR (recordL fe { cx with selShape := false } shape)
+        (appendR (recordL fe { cx with shape := .none, exposed := true } shape)
           (appendR (recordL fe cx onC) (recordL fe cx els)))
   | .update subj filter shape =>
     match dmlGuard cx with
     | .error e => .error e
     | .ok () =>
       appendR (.ok [.stmt .update])
-        (appendR (record fe cx subj)
+        (appendR (record fe { cx with exposed := false } subj)
           (appendR (recordL fe { cx with disallow := true } filter)
-            (recordL fe { cx with selShape := false } shape)))
+            (recordL fe { cx with shape := .none, exposed := true } shape)))
   | .delete subj filter order offlim =>
     match dmlGuard cx with
     | .error e => .error e
     | .ok () =>
       appendR (.ok [.stmt .delete])
-        (appendR (record fe cx subj)
+        (appendR (record fe { cx with exposed := false } subj)
           (appendR (recordL fe { cx with disallow := true } filter)
-            (appendR (recordL fe { cx with disallow := true } order) (recordL fe cx offlim))))
+            (appendR (recordL fe { cx with disallow := true } order) (recordL fe cx.offlim offlim))))
+  | .free shape =>
+    -- acceptable only when written in an exposed position that is not itself inside a shape computed
+    recordL fe { cx with shape := .free (cx.exposed && cx.shape == .none) } shape
 def recordL (fe : FnEnv) (cx : Cx) : QList → Except Reject (List Rec)
   | .nil => .ok []
   | .cons q qs => appendR (record fe cx q) (recordL fe cx qs)
@@ -305,6 +338,7 @@ def run (fe : FnEnv) (ρ : VEnv) (db : DB) : Q → DB × Val
     let r3 := runL fe ρ r2.1 order
     let r4 := runL fe ρ r3.1 offlim
     (r4.1.filter fun row => !(r1.2.contains row.2 && r2.2.all truthy), r1.2)
+  | .free shape => let r := runL fe ρ db shape; (r.1, r.2.flatten)
 def runL (fe : FnEnv) (ρ : VEnv) (db : DB) : QList → DB × List Val
   | .nil => (db, [])
   | .cons q qs =>
@@ -321,10 +355,13 @@ def declare (fe : FnEnv) (decl : Option Bool) (params : List Nat) (body : Q) : E
   match record fe Cx.top body with
   | .error e => .error e
   | .ok l =>
-    let inferred := hasDml l           -- inferred volatility is Modifying iff DML was recorded
+    -- inference/volatility.py: a call of an inlined (Modifying) function has the volatility of its
+    -- BODY, so the body is Modifying iff a DML statement is reached (directly or through inlining);
+    -- a call of a declared-Modifying function whose body is pure does not make the caller Modifying
+    let inferred := l.any Rec.isStmt
     if decl == some false && inferred then .error .volatility
     else .ok (fe ++ [{ modifying := decl == some true || inferred
-                       dmlStmt := l.any Rec.isStmt
+                       dmlStmt := inferred
                        sem := fun db vs => run fe (params.zip vs) db body }])
 
 /-! ## statements and scripts -/
